@@ -218,7 +218,7 @@ class C09(Check):
     ]
 
     def runs(self, tier):
-        return 3000 if tier == "quick" else 1500000
+        return 10000 if tier == "quick" else 1500000
 
     def prepare(self, ctx):
         self.startup = self.startup_probe(ctx)
